@@ -23,29 +23,49 @@ import (
 	"google.golang.org/protobuf/proto"
 
 	api "github.com/yorkie-team/yorkie/api/yorkie/v1"
+	"github.com/yorkie-team/yorkie/pkg/document/change"
 	"github.com/yorkie-team/yorkie/pkg/document/crdt"
+	"github.com/yorkie-team/yorkie/pkg/document/operations"
 	"github.com/yorkie-team/yorkie/pkg/document/time"
 )
 
 // ---------- views ----------
 
 type elemView struct {
-	removed map[string]crdt.Element // createdAt key -> removed element, closed under descendants (what GarbageElementLen counts)
+	removed map[string]string       // createdAt key -> key of the tombstoned element that brings it in (itself or an ancestor): what GarbageElementLen counts
 	all     map[string]crdt.Element // createdAt key -> element found by walking the graph
-	pairs   map[string]crdt.GCPair  // GC node pairs found by walking the graph (key: child type + id)
+	pairs   map[string]string       // GC node pairs found by walking the graph: unique key (owner + child) -> child id
+	idCount map[string]int          // child id -> number of graph pairs carrying it (ids of attribute tombstones are not unique per owner)
+	attrOf  map[string]string       // unique pair key -> "text" | "tree" for attribute tombstones
 }
 
-func pairKey(p crdt.GCPair) string { return fmt.Sprintf("%T:%s", p.Child, p.Child.IDString()) }
+func ownerOf(p crdt.GCPair) string {
+	switch x := p.Parent.(type) {
+	case *crdt.TreeNode:
+		return "treenode " + x.IDString()
+	case *crdt.RGATreeList:
+		return "array"
+	case *crdt.TextValue:
+		return fmt.Sprintf("textvalue %p", x)
+	default:
+		return fmt.Sprintf("%T", p.Parent)
+	}
+}
 
 // graphView walks an object graph (no bookkeeping involved).
 func graphView(root *crdt.Object) elemView {
-	v := elemView{removed: map[string]crdt.Element{}, all: map[string]crdt.Element{}, pairs: map[string]crdt.GCPair{}}
-	var mark func(e crdt.Element)
-	mark = func(e crdt.Element) {
-		v.removed[e.CreatedAt().Key()] = e
+	v := elemView{removed: map[string]string{}, all: map[string]crdt.Element{}, pairs: map[string]string{},
+		idCount: map[string]int{}, attrOf: map[string]string{}}
+	mark := func(e crdt.Element) {
+		o := e.CreatedAt().Key()
+		if _, ok := v.removed[o]; !ok {
+			v.removed[o] = o
+		}
 		if ct, ok := e.(crdt.Container); ok {
 			ct.Descendants(func(d crdt.Element, _ crdt.Container) bool {
-				v.removed[d.CreatedAt().Key()] = d
+				if _, ok := v.removed[d.CreatedAt().Key()]; !ok {
+					v.removed[d.CreatedAt().Key()] = o
+				}
 				return false
 			})
 		}
@@ -55,17 +75,38 @@ func graphView(root *crdt.Object) elemView {
 		if e.RemovedAt() != nil {
 			mark(e)
 		}
-		var ps []crdt.GCPair
+		addPair := func(owner string, p crdt.GCPair, attr string) {
+			k := e.CreatedAt().Key() + "/" + owner + "/" + fmt.Sprintf("%T:%s", p.Child, p.Child.IDString())
+			v.pairs[k] = p.Child.IDString()
+			v.idCount[p.Child.IDString()]++
+			if attr != "" {
+				v.attrOf[k] = attr
+			}
+		}
 		switch x := e.(type) {
 		case *crdt.Array:
-			ps = x.GCPairs()
+			for _, p := range x.GCPairs() {
+				addPair("array", p, "")
+			}
 		case *crdt.Text:
-			ps = x.GCPairs()
+			for _, n := range x.Nodes() {
+				if n.RemovedAt() != nil {
+					addPair("text", crdt.GCPair{Parent: x.RGATreeSplit(), Child: n}, "")
+				}
+				if n.Value() != nil {
+					for _, p := range n.Value().GCPairs() {
+						addPair("textnode "+n.ID().ToTestString(), p, "text")
+					}
+				}
+			}
 		case *crdt.Tree:
-			ps = x.GCPairs()
-		}
-		for _, p := range ps {
-			v.pairs[pairKey(p)] = p
+			for _, p := range x.GCPairs() {
+				attr := ""
+				if _, ok := p.Child.(*crdt.RHTNode); ok {
+					attr = "tree"
+				}
+				addPair(ownerOf(p), p, attr)
+			}
 		}
 	}
 	visit(root)
@@ -76,35 +117,61 @@ func graphView(root *crdt.Object) elemView {
 	return v
 }
 
-// bookView is the live root's own bookkeeping: registered removed elements (closed under
-// descendants, as GarbageElementLen counts them) and the keys of gcNodePairMap (unexported: read
-// through reflection, keys only).
-func bookView(r *crdt.Root) (map[string]crdt.Element, map[string]bool, bool) {
-	reg := map[string]crdt.Element{}
+type bookKeeping struct {
+	direct map[string]crdt.Element // registered tombstones
+	elems  map[string]string       // closed under descendants: key -> registered tombstone that brings it in
+	inst   map[string]crdt.Element // the instances seen through the registered tombstones
+	pairs  map[string]bool         // keys of gcNodePairMap (child ids)
+	ok     bool
+}
+
+// bookView is a root's own bookkeeping: registered removed elements (closed under descendants, as
+// GarbageElementLen counts them) and the keys of gcNodePairMap (unexported: read through
+// reflection, keys only).
+func bookView(r *crdt.Root) bookKeeping {
+	b := bookKeeping{direct: map[string]crdt.Element{}, elems: map[string]string{}, inst: map[string]crdt.Element{}, pairs: map[string]bool{}}
 	for _, p := range r.GCElementPairMap() {
 		p := p
 		e := p.Elem()
-		reg[e.CreatedAt().Key()] = e
+		o := e.CreatedAt().Key()
+		b.direct[o] = e
+	}
+	for o, e := range b.direct {
+		b.elems[o] = o
+		b.inst[o] = e
+	}
+	for o, e := range b.direct {
 		if ct, ok := e.(crdt.Container); ok {
+			o := o
 			ct.Descendants(func(d crdt.Element, _ crdt.Container) bool {
-				reg[d.CreatedAt().Key()] = d
+				if _, ok := b.elems[d.CreatedAt().Key()]; !ok {
+					b.elems[d.CreatedAt().Key()] = o
+					b.inst[d.CreatedAt().Key()] = d
+				}
 				return false
 			})
 		}
 	}
-	pairs := map[string]bool{}
-	ok := false
 	func() {
 		defer func() { _ = recover() }()
 		f := reflect.ValueOf(r).Elem().FieldByName("gcNodePairMap")
 		if f.IsValid() && f.Kind() == reflect.Map {
 			for _, k := range f.MapKeys() {
-				pairs[k.String()] = true
+				b.pairs[k.String()] = true
 			}
-			ok = true
+			b.ok = true
 		}
 	}()
-	return reg, pairs, ok
+	return b
+}
+
+// observe records which attribute-tombstone ids were ever carried by more than one owner.
+func (h *fuzzHist) observe(root *crdt.Object) {
+	for id, n := range graphView(root).idCount {
+		if n >= 2 {
+			h.sharedIDs[id] = true
+		}
+	}
 }
 
 // ---------- protobuf side ----------
@@ -260,6 +327,30 @@ func restoredInstances(root *crdt.Object) map[string]string {
 	return out
 }
 
+// orphanMembers: object members that are not tombstoned and are not the occupant of their key
+// (key -> createdAt key).  The live object does not show them; a decoder that re-inserts every
+// member makes the newest of them the occupant.
+func orphanMembers(root *crdt.Object) map[string]string {
+	out := map[string]string{}
+	check := func(o *crdt.Object) {
+		occ := o.Members()
+		for _, n := range o.RHTNodes() {
+			e := n.Element()
+			if e.RemovedAt() == nil && occ[n.Key()] != e {
+				out[n.Key()] = e.CreatedAt().Key()
+			}
+		}
+	}
+	check(root)
+	root.Descendants(func(e crdt.Element, _ crdt.Container) bool {
+		if o, ok := e.(*crdt.Object); ok {
+			check(o)
+		}
+		return false
+	})
+	return out
+}
+
 // removedTextAttrs: ids of removed attribute nodes of Text nodes in a graph (their IsRemoved
 // flag is what toTextNodes does not serialise).
 func removedTextAttrs(root *crdt.Object) map[string]bool {
@@ -312,6 +403,16 @@ const (
 	tagRHT        = "c02-rht-lww-replay-on-decode"
 	tagTextAttr   = "c02-text-attr-removed"
 	tagPairToggle = "c09-gc-pair-registered-twice-is-dropped"
+	// consequences of undo/redo restoring something under its old identity
+	tagRestoredInner = "c15-tombstones-inside-restored-element-not-registered"
+	tagRestoredNode  = "c15-gc-pair-of-restored-node-stays-registered"
+	// the live root's registrations differ from crdt.NewRoot(live.Object()) - a rebuild from its own
+	// graph, no codec involved - in a shape none of the predicates above identifies
+	tagBookOther = "c03-live-gc-bookkeeping-differs-from-rebuild-of-own-graph"
+	// an object member that lost a last-writer-wins race against an occupant that was already
+	// removed is never tombstoned; once the occupant is purged it is the only member left and the
+	// decoder makes it the occupant
+	tagOrphan = "c02-untombstoned-lww-loser-resurrected-by-decode"
 )
 
 func describe(e crdt.Element) string {
@@ -322,107 +423,136 @@ func describe(e crdt.Element) string {
 	return fmt.Sprintf("%s(%T,%s)", e.CreatedAt().ToTestString(), e, rm)
 }
 
+// isAttrID: ids of attribute tombstones are "<updatedAt key>:<attribute key>", ids of text / tree
+// nodes are "<createdAt key>:<offset>".
+func isAttrID(id string) bool {
+	i := strings.LastIndex(id, ":")
+	if i < 0 || i+1 >= len(id) {
+		return false
+	}
+	for _, c := range id[i+1:] {
+		if c < '0' || c > '9' {
+			return true
+		}
+	}
+	return false
+}
+
 // analyseSnapshot explains, item by item, every difference between L, G and D and between the
 // two encodings pa (of the live graph) and pb (of the decoded graph).
 func (h *fuzzHist) analyseSnapshot(live *crdt.Root, obj *crdt.Object, pa, pb *api.Snapshot) *snapReport {
 	rep := &snapReport{}
 	G := graphView(live.Object())
 	D := graphView(obj)
-	Lreg, Lpairs, haveLpairs := bookView(live)
+	L := bookView(live)
+	Gb := bookView(crdt.NewRoot(live.Object())) // bookkeeping rebuilt from the live graph (no codec)
+	Db := bookView(crdt.NewRoot(obj))           // bookkeeping rebuilt from the decoded graph
+	for id, n := range G.idCount {
+		if n >= 2 {
+			h.sharedIDs[id] = true
+		}
+	}
+	for id, n := range D.idCount {
+		if n >= 2 {
+			h.sharedIDs[id] = true
+		}
+	}
 	restored := restoredInstances(live.Object())
 	race := raceMembers(pa.Root)
 	for k, v := range raceMembers(pb.Root) {
 		race[k] = v
 	}
+	closure := func(set map[string]bool) map[string]bool {
+		out := map[string]bool{}
+		for k := range set {
+			out[k] = true
+			if ct, ok := G.all[k].(crdt.Container); ok {
+				ct.Descendants(func(d crdt.Element, _ crdt.Container) bool {
+					out[d.CreatedAt().Key()] = true
+					return false
+				})
+			}
+		}
+		return out
+	}
+	replaced := closure(h.replaced)       // everything below an element replaced through Array.Set*
+	inRestored := closure(h.restoredVals) // everything inside an element restored under its old createdAt
 
-	// --- L vs G: elements
-	for k, e := range G.removed {
-		if _, ok := Lreg[k]; ok {
+	// --- (1) elements, L vs G: the live root's registrations against its own graph
+	for k, o := range G.removed {
+		if _, ok := L.elems[k]; ok {
 			continue
 		}
+		e := G.all[k]
 		switch {
-		case h.replaced[k]:
+		case replaced[o]:
 			// replaced through Array.Set*: tombstoned in the graph, never registered by the live root
 			rep.add(tagArraySet, "graph-tombstone-not-registered:"+describe(e))
+		case inRestored[o] && !h.restoredVals[o]:
+			// a tombstone that came back inside a restored container: RegisterElement books the
+			// restored value and its descendants as live, their tombstones are never registered
+			rep.add(tagRestoredInner, "graph-tombstone-not-registered:"+describe(e))
 		default:
-			rep.add("", "graph-tombstone-not-registered:"+describe(e))
+			rep.add(tagBookOther, "graph-tombstone-not-registered:"+describe(e))
 		}
 	}
-	for k, e := range Lreg {
+	for k, o := range L.elems {
 		if _, ok := G.removed[k]; ok {
 			continue
 		}
-		cur, inGraph := G.all[k]
+		e := L.inst[k]
+		reg := L.direct[o]
+		cur, inGraph := G.all[o]
 		switch {
-		case inGraph && cur.RemovedAt() == nil && cur != e:
-			// the registered instance is a tombstone that an undo/redo replaced by a live instance
-			// under the same createdAt; the registration was never dropped
-			rep.add(tagStaleReg, "registered-but-live-in-graph:"+describe(e)+" graph holds "+describe(cur))
-		case inGraph && cur.RemovedAt() == nil && cur == e:
-			rep.add("", "registered-but-not-removed:"+describe(e))
+		case inGraph && cur != reg && (cur.RemovedAt() == nil || h.restoredVals[o]):
+			// the registered tombstone instance was replaced (undo/redo restored the element under the
+			// same createdAt); the registration - and with it everything the old instance contained -
+			// was never dropped
+			rep.add(tagStaleReg, "registered-through-replaced-instance:"+describe(e)+" via "+describe(reg))
 		default:
-			rep.add("", "registered-but-absent-from-graph:"+describe(e))
+			rep.add(tagBookOther, "registered-but-not-a-graph-tombstone:"+describe(e)+" via "+describe(reg))
 		}
 	}
-	// --- L vs G: GC node pairs
-	if haveLpairs {
-		for k := range G.pairs {
-			id := k[strings.Index(k, ":")+1:]
-			if !Lpairs[id] {
-				// RegisterGCPair deletes the entry when the same child is registered a second time
-				// ("it means that the child should be removed from the cache")
-				rep.add(tagPairToggle, "graph-pair-not-registered:"+k)
-			}
-		}
-		gids := map[string]bool{}
-		for k := range G.pairs {
-			gids[k[strings.Index(k, ":")+1:]] = true
-		}
-		for id := range Lpairs {
-			if !gids[id] {
-				rep.add("", "registered-pair-not-in-graph:"+id)
-			}
-		}
-	} else if n := live.GarbageLen() - live.GarbageElementLen(); n != len(G.pairs) {
-		rep.add("", fmt.Sprintf("live pair count %d, graph pair count %d (gcNodePairMap not readable)", n, len(G.pairs)))
-	}
-
-	// --- G vs D: elements
-	for k, e := range D.removed {
+	// --- (2) elements, G vs D: what the codec / the decoder's replay changes
+	for k, o := range D.removed {
 		if _, ok := G.removed[k]; ok {
 			continue
 		}
-		_, isRace := race[k]
-		_, isRest := restored[k]
+		e := D.all[k]
+		_, isRace := race[o]
+		_, isRest := restored[o]
 		switch {
 		case isRest:
 			rep.add(tagRestored, "tombstone-after-decode:"+describe(e))
 		case isRace:
-			rep.add(tagRHT, "member-tombstoned-by-decode:"+describe(e)+" key="+race[k])
+			rep.add(tagRHT, "member-tombstoned-by-decode:"+describe(e)+" key="+race[o])
 		default:
-			rep.add("", "tombstone-only-after-decode:"+describe(e))
+			rep.add("", "tombstone-only-after-decode:"+describe(e)+" via "+describe(D.all[o]))
 		}
 	}
-	for k, e := range G.removed {
+	for k, o := range G.removed {
 		if _, ok := D.removed[k]; ok {
 			continue
 		}
-		_, isRest := restored[k]
+		e := G.all[k]
+		_, isRest := restored[o]
 		switch {
 		case isRest:
 			rep.add(tagRestored, "tombstone-lost-by-decode:"+describe(e))
 		default:
-			rep.add("", "tombstone-lost-by-decode:"+describe(e))
+			rep.add("", "tombstone-lost-by-decode:"+describe(e)+" via "+describe(G.all[o]))
 		}
 	}
-	// --- G vs D: GC node pairs
-	lostAttrs := removedTextAttrs(live.Object())
-	for k := range G.pairs {
+	// --- (5) GC node pairs with their owners, G vs D: what the codec loses or invents
+	lostIDs := map[string]bool{}
+	for k, id := range G.pairs {
 		if _, ok := D.pairs[k]; ok {
 			continue
 		}
-		if lostAttrs[k] {
-			rep.add(tagTextAttr, "removed-text-attribute-pair-lost:"+k)
+		if G.attrOf[k] == "text" {
+			// removed attribute of a text node: toTextNodes does not serialise IsRemoved
+			rep.add(tagTextAttr, "removed-text-attribute-lost:"+k)
+			lostIDs[id] = true
 		} else {
 			rep.add("", "pair-lost-by-decode:"+k)
 		}
@@ -431,6 +561,55 @@ func (h *fuzzHist) analyseSnapshot(live *crdt.Root, obj *crdt.Object, pa, pb *ap
 		if _, ok := G.pairs[k]; !ok {
 			rep.add("", "pair-only-after-decode:"+k)
 		}
+	}
+	// --- (3) pair registrations, L vs a rebuild from the same graph
+	pairItem := func(id, what string, book bool) {
+		tk := id
+		if i := strings.LastIndex(id, ":"); i > 0 {
+			tk = id[:i]
+		}
+		switch {
+		case isAttrID(id) && h.sharedIDs[id]:
+			// gcNodePairMap is keyed by the child id; an attribute tombstone's id (updatedAt:key) is
+			// shared by every text / tree node the same style operation touched (or a split copied it
+			// to), and RegisterGCPair deletes the entry when "the same child" is registered again
+			rep.add(tagPairToggle, what+":"+id)
+		case !isAttrID(id) && h.restoredNodes[tk]:
+			// the node was un-tombstoned / re-tombstoned by an identity-preserving restore edit
+			rep.add(tagRestoredNode, what+":"+id)
+		case book:
+			rep.add(tagBookOther, what+":"+id)
+		default:
+			rep.add("", what+":"+id)
+		}
+	}
+	if L.ok && Gb.ok && Db.ok {
+		for id := range Gb.pairs {
+			if !L.pairs[id] {
+				pairItem(id, "pair-registered-by-rebuild-not-by-live-root", true)
+			}
+		}
+		for id := range L.pairs {
+			if !Gb.pairs[id] {
+				pairItem(id, "pair-registered-by-live-root-not-by-rebuild", true)
+			}
+		}
+		// --- (4) pair registrations through the codec
+		for id := range Gb.pairs {
+			if !Db.pairs[id] && !lostIDs[id] {
+				pairItem(id, "pair-registration-lost-by-decode", false)
+			}
+		}
+		for id := range Db.pairs {
+			if !Gb.pairs[id] {
+				if lostIDs[id] {
+					continue
+				}
+				pairItem(id, "pair-registration-only-after-decode", false)
+			}
+		}
+	} else {
+		rep.add("", "gcNodePairMap not readable")
 	}
 
 	// --- the two encodings
@@ -504,51 +683,84 @@ func firstDiff(a, b string) string {
 }
 
 // explainMarshal decides whether a Marshal() difference between the live and the decoded root is
-// accounted for by the items already found.
-func (h *fuzzHist) explainMarshal(rep *snapReport, live *crdt.Root, m1, m2 string) string {
-	// (a) removed text attributes come back: the difference is confined to "attrs" of text nodes
-	if len(removedTextAttrs(live.Object())) > 0 && reAttrs.ReplaceAllString(m1, "") == reAttrs.ReplaceAllString(m2, "") {
-		return tagTextAttr
+// accounted for by findings for which the live graph (or the two encodings) carry evidence.  All
+// applicable normalisations are applied together; the tags returned are those whose normalisation
+// was needed.  nil = unexplained.
+func (h *fuzzHist) explainMarshal(rep *snapReport, live *crdt.Root, m1, m2 string) []string {
+	type norm struct {
+		tag string
+		f   func(string) (string, bool)
 	}
-	// (b) the encodings are equal up to racing members / restored instances (no unexplained item),
-	// and the two Marshal() strings are equal once the keys those members compete for are deleted
-	// from every object: which member shows under such a key is exactly what the two findings change
-	if _, unexplained := rep.by[""]; unexplained {
-		return ""
+	var norms []norm
+	// (a) removed text attributes come back: strip "attrs" of text nodes
+	if len(removedTextAttrs(live.Object())) > 0 {
+		norms = append(norms, norm{tagTextAttr, func(s string) (string, bool) { return reAttrs.ReplaceAllString(s, ""), true }})
 	}
-	keys := map[string]bool{}
-	restored := restoredInstances(live.Object())
-	for _, k := range restored {
-		keys[k] = true
+	// (b) an untombstoned loser becomes the occupant: delete the keys that have such a member
+	if orph := orphanMembers(live.Object()); len(orph) > 0 {
+		ks := map[string]bool{}
+		for k := range orph {
+			ks[k] = true
+		}
+		norms = append(norms, norm{tagOrphan, func(s string) (string, bool) { return stripKeysJSON(s, ks) }})
 	}
-	raceUsed := false
-	if f, ok := rep.by[tagRHT]; ok && len(f.items) > 0 {
+	// (c) restored instances shadowed in the by-createdAt table: delete their keys
+	if restored := restoredInstances(live.Object()); len(restored) > 0 {
+		ks := map[string]bool{}
+		for _, k := range restored {
+			ks[k] = true
+		}
+		norms = append(norms, norm{tagRestored, func(s string) (string, bool) { return stripKeysJSON(s, ks) }})
+	}
+	// (d) members racing for a key whose tombstones the decoder moved: delete those keys
+	if f, ok := rep.by[tagRHT]; ok {
+		ks := map[string]bool{}
 		for _, it := range f.items {
 			if i := strings.Index(it, "racing for keys "); i >= 0 {
 				for _, k := range strings.Split(it[i+len("racing for keys "):], ",") {
-					keys[k] = true
+					ks[k] = true
 				}
 			}
 			if i := strings.LastIndex(it, " key="); i >= 0 {
-				keys[it[i+5:]] = true
+				ks[it[i+5:]] = true
 			}
 		}
-		raceUsed = true
-	}
-	if len(keys) == 0 {
-		return ""
-	}
-	a, ok1 := stripKeysJSON(m1, keys)
-	b, ok2 := stripKeysJSON(m2, keys)
-	if ok1 && ok2 && a == b {
-		if len(restored) > 0 {
-			return tagRestored
-		}
-		if raceUsed {
-			return tagRHT
+		if len(ks) > 0 {
+			norms = append(norms, norm{tagRHT, func(s string) (string, bool) { return stripKeysJSON(s, ks) }})
 		}
 	}
-	return ""
+	apply := func(skip int) bool {
+		a, b := m1, m2
+		for i, n := range norms {
+			if i == skip {
+				continue
+			}
+			var ok1, ok2 bool
+			a, ok1 = n.f(a)
+			b, ok2 = n.f(b)
+			if !ok1 || !ok2 {
+				return false
+			}
+		}
+		if len(norms) == 0 || (skip >= 0 && len(norms) == 1) {
+			return a == b
+		}
+		// canonical form for comparison when no JSON normalisation ran
+		return a == b
+	}
+	if len(norms) == 0 || !apply(-1) {
+		return nil
+	}
+	var tags []string
+	for i, n := range norms {
+		if !apply(i) {
+			tags = append(tags, n.tag) // needed
+		}
+	}
+	if len(tags) == 0 {
+		tags = append(tags, norms[0].tag)
+	}
+	return tags
 }
 
 // stripKeysJSON parses a Marshal() string, deletes the given member names from every object and
@@ -590,4 +802,130 @@ func stripKeysJSON(s string, keys map[string]bool) (string, bool) {
 		return "", false
 	}
 	return string(out), true
+}
+
+// opsMentioning lists the logged operations that create, remove, move or replace the element with
+// the given createdAt key (debug aid, PBFUZZ_DUMP).
+func (h *fuzzHist) opsMentioning(key string) []string {
+	var out []string
+	tk := func(t *time.Ticket) string {
+		if t == nil {
+			return "nil"
+		}
+		return t.ToTestString()
+	}
+	all := append([]*change.Change{}, h.log...)
+	for _, cl := range h.clients {
+		all = append(all, cl.doc.CreateChangePack().Changes...)
+	}
+	for _, ch := range all {
+		for _, op := range ch.Operations() {
+			hit := false
+			desc := fmt.Sprintf("seq%d(actor %s cs%d) %T", ch.ServerSeq(), ch.ID().ActorID().String()[22:], ch.ClientSeq(), op)
+			switch o := op.(type) {
+			case *operations.Set:
+				hit = o.Value().CreatedAt().Key() == key || o.ParentCreatedAt().Key() == key
+				desc += fmt.Sprintf(" parent=%s key=%s value=%s at=%s", tk(o.ParentCreatedAt()), o.Key(), tk(o.Value().CreatedAt()), tk(o.ExecutedAt()))
+			case *operations.Add:
+				hit = o.Value().CreatedAt().Key() == key || o.ParentCreatedAt().Key() == key
+				desc += fmt.Sprintf(" parent=%s prev=%s value=%s at=%s", tk(o.ParentCreatedAt()), tk(o.PrevCreatedAt()), tk(o.Value().CreatedAt()), tk(o.ExecutedAt()))
+			case *operations.Remove:
+				hit = o.CreatedAt().Key() == key || o.ParentCreatedAt().Key() == key
+				desc += fmt.Sprintf(" parent=%s target=%s at=%s", tk(o.ParentCreatedAt()), tk(o.CreatedAt()), tk(o.ExecutedAt()))
+			case *operations.Move:
+				hit = o.CreatedAt().Key() == key || o.ParentCreatedAt().Key() == key
+				desc += fmt.Sprintf(" parent=%s prev=%s target=%s at=%s", tk(o.ParentCreatedAt()), tk(o.PrevCreatedAt()), tk(o.CreatedAt()), tk(o.ExecutedAt()))
+			case *operations.TreeStyle:
+				hit = strings.HasPrefix(key, o.ExecutedAt().Key()) || key == "styles"
+				desc += fmt.Sprintf(" parent=%s from=%v to=%v attrs=%v remove=%v at=%s", tk(o.ParentCreatedAt()), o.FromPos(), o.ToPos(), o.Attributes(), o.AttributesToRemove(), tk(o.ExecutedAt()))
+			case *operations.Style:
+				hit = strings.HasPrefix(key, o.ExecutedAt().Key()) || key == "styles"
+				desc += fmt.Sprintf(" parent=%s attrs=%v remove=%v at=%s", tk(o.ParentCreatedAt()), o.Attributes(), o.AttributesToRemove(), tk(o.ExecutedAt()))
+			case *operations.TreeEdit:
+				hit = key == "styles"
+				desc += fmt.Sprintf(" split=%d contents=%d at=%s", o.SplitLevel(), len(o.Contents()), tk(o.ExecutedAt()))
+			case *operations.Edit:
+				hit = key == "styles"
+				var sp []string
+				for _, x := range o.RestoreSpans() {
+					sp = append(sp, fmt.Sprintf("restore %s[%d,%d)", tk(x.CreatedAt), x.Start, x.End))
+				}
+				for _, x := range o.RetombstoneSpans() {
+					sp = append(sp, fmt.Sprintf("retomb %s[%d,%d)", tk(x.CreatedAt), x.Start, x.End))
+				}
+				desc += fmt.Sprintf(" parent=%s from=%s:%d to=%s:%d content=%q mode=%v %v at=%s", tk(o.ParentCreatedAt()), tk(o.From().ID().CreatedAt()), o.From().ID().Offset()+o.From().RelativeOffset(),
+					tk(o.To().ID().CreatedAt()), o.To().ID().Offset()+o.To().RelativeOffset(), o.Content(), o.RestoreMode(), sp, tk(o.ExecutedAt()))
+			case *operations.ArraySet:
+				hit = o.CreatedAt().Key() == key || o.Value().CreatedAt().Key() == key || o.ParentCreatedAt().Key() == key
+				desc += fmt.Sprintf(" parent=%s target=%s value=%s at=%s", tk(o.ParentCreatedAt()), tk(o.CreatedAt()), tk(o.Value().CreatedAt()), tk(o.ExecutedAt()))
+			}
+			if hit {
+				out = append(out, desc)
+			}
+		}
+	}
+	return out
+}
+
+// noteOps records, from operations the system itself produced, the facts the predicates need:
+// elements replaced through ArraySet, elements restored under their old createdAt (a Set/Add/
+// ArraySet whose value was created before the operation: only undo/redo emits those), and text /
+// tree nodes un-tombstoned or re-tombstoned by identity-preserving restore edits.
+func (h *fuzzHist) noteOps(changes []*change.Change) {
+	for _, ch := range changes {
+		for _, op := range ch.Operations() {
+			switch o := op.(type) {
+			case *operations.ArraySet:
+				if o.CreatedAt() != nil {
+					h.replaced[o.CreatedAt().Key()] = true
+				}
+				if o.Value() != nil && o.Value().CreatedAt() != nil && o.Value().CreatedAt().Key() != o.ExecutedAt().Key() {
+					h.restoredVals[o.Value().CreatedAt().Key()] = true
+				}
+			case *operations.Set:
+				if o.Value() != nil && o.Value().CreatedAt() != nil && o.Value().CreatedAt().Key() != o.ExecutedAt().Key() {
+					h.restoredVals[o.Value().CreatedAt().Key()] = true
+				}
+			case *operations.Add:
+				if o.Value() != nil && o.Value().CreatedAt() != nil && o.Value().CreatedAt().Key() != o.ExecutedAt().Key() {
+					h.restoredVals[o.Value().CreatedAt().Key()] = true
+				}
+			case *operations.Edit:
+				for _, sp := range append(append([]*crdt.RestoreSpan{}, o.RestoreSpans()...), o.RetombstoneSpans()...) {
+					if sp != nil && sp.CreatedAt != nil {
+						h.restoredNodes[sp.CreatedAt.Key()] = true
+					}
+				}
+			case *operations.TreeEdit:
+				for _, sp := range append(append([]*crdt.TreeRestoreSpan{}, o.RestoreSpans()...), o.RetombstoneSpans()...) {
+					if sp != nil && sp.ID != nil && sp.ID.CreatedAt != nil {
+						h.restoredNodes[sp.ID.CreatedAt.Key()] = true
+					}
+				}
+			}
+		}
+	}
+}
+
+func (h *fuzzHist) notePending() {
+	for _, cl := range h.clients {
+		h.noteOps(cl.doc.CreateChangePack().Changes)
+	}
+}
+
+// staleRegistrations: tombstones registered in a root's gcElementPairMap whose createdAt now
+// belongs to a different, live instance in the graph (an undo/redo restored the element under its
+// old createdAt and the registration was not dropped).  GarbageCollect purges by createdAt.
+func staleRegistrations(r *crdt.Root) []string {
+	G := graphView(r.Object())
+	var out []string
+	for _, p := range r.GCElementPairMap() {
+		p := p
+		e := p.Elem()
+		if cur, ok := G.all[e.CreatedAt().Key()]; ok && cur != e && cur.RemovedAt() == nil {
+			out = append(out, describe(e)+" now "+describe(cur))
+		}
+	}
+	sort.Strings(out)
+	return out
 }
